@@ -84,7 +84,9 @@ pub fn base_module(base: &J) -> Vec<u8> {
     use wasm_encoder::Section;
     let mut bytes = plain[..8].to_vec();
     let custom = |k: u64, out: &mut Vec<u8>| {
-        wasm_encoder::CustomSection { name: format!("c{}", k % 2).into(), data: (&[k as u8, 7][..]).into() }.append_to(out);
+        // names the decoder library classifies as "known" kinds (dylink.0, branch hints) next to arbitrary ones
+        let name = ["c0", "dylink.0", "c0", "metadata.code.branch_hint"][(k % 4) as usize];
+        wasm_encoder::CustomSection { name: name.into(), data: (&[k as u8, 7][..]).into() }.append_to(out);
     };
     let mut placed = 0u64;
     if cpos == "front" {
